@@ -341,7 +341,7 @@ def selftest(prop, seed, tier, ks_inproc, pool_digests):
         if k in pool_digests and pool_digests[k] != local[k]:
             return False, 'run %d differs between the main process and a pool worker' % k, {}
     fresh = {}
-    ks = list(ks_inproc)[:6]
+    ks = list(ks_inproc)[:getattr(prop, 'SELFTEST_FRESH', 6)]
     for hs in ('1', '31337'):
         env = dict(os.environ)
         env['PYTHONHASHSEED'] = hs
@@ -389,7 +389,7 @@ def run_check(prop_name, tier, replay=None, digests=None, quiet=False, runs_over
     for l in kf_lines:
         print(l)
 
-    st_ks = list(range(0, min(n_runs, 12)))
+    st_ks = list(range(0, min(n_runs, getattr(prop, 'SELFTEST_RUNS', 12))))
     from concurrent.futures import ProcessPoolExecutor
     import multiprocessing as mp
     chunks = [list(range(w, n_runs, W)) for w in range(W)]
